@@ -330,6 +330,26 @@ def gen_consts(src, previous=""):
 
     _run_section("reduceTol", _sec_reduceTol, out, status, prev_blocks)
 
+    def _sec_emptyNoCols():
+        out = []
+        # 3b. is_polytope_empty: what is answered for a matrix without columns (`if n * m == 0: return …`)
+        f = _find_func(poly, "PolyhedralTermList", "is_polytope_empty")
+        ifs = [n for n in ast.walk(f) if isinstance(n, ast.If) and ast.unparse(n.test).replace(" ", "") == "n*m==0"]
+        if len(ifs) != 1 or ifs[0].orelse or len(ifs[0].body) != 1 or not isinstance(ifs[0].body[0], ast.Return):
+            raise TranslateError("is_polytope_empty: `if n * m == 0: return …` not found exactly once")
+        ret = ast.unparse(ifs[0].body[0].value).replace(" ", "")
+        if ret == "False":
+            val = "false"
+        elif ret in ("bool(np.any(np.asarray(b)<0))", "bool(np.any(b<0))", "bool((b<0).any())"):
+            val = "true"
+        else:
+            raise TranslateError(f"is_polytope_empty: unrecognised answer for a matrix without columns: {ret}")
+        out.append("/-- `is_polytope_empty` on a matrix without columns (every row reads `0 ≤ bᵢ`): `true` = empty iff some `bᵢ < 0` (the repaired "
+                   f"code), `false` = the pinned unconditional \"not empty\" -/\ndef emptyNoColsBySign : Bool := {val}\n")
+        return out
+
+    _run_section("emptyNoCols", _sec_emptyNoCols, out, status, prev_blocks)
+
     def _sec_combineNoneNone():
         out = []
         # 4. _combine_optional_floats(None, None)
@@ -379,7 +399,7 @@ def gen_consts(src, previous=""):
     return "\n".join(out) + "\n", status
 
 
-SECTION_DEFS = {"isolateSign": ["isolateSign"], "tactic3Fresh": ["tactic3Fresh"], "containTol": ["containTol"], "reduceTol": ["reduceTol"],
+SECTION_DEFS = {"emptyNoCols": ["emptyNoColsBySign"], "isolateSign": ["isolateSign"], "tactic3Fresh": ["tactic3Fresh"], "containTol": ["containTol"], "reduceTol": ["reduceTol"],
                 "combineNoneNone": ["combineNoneNone"], "eq": ["eqComparesOutputs", "eqCompoundComparesOutputs", "strConstPlusZero"],
                 "arithFold": ["arithFold"],
                 "dict": ["checkClauseDictTest", "checkClauseRaises", "checkClauseNumTest", "fileChecked", "compoundChecked", "fromDictValidates", "catchZeroDiv"]}
